@@ -119,23 +119,43 @@ pub fn explore(ctx: &Ctx) {
     ctx.assume("under the FajrIshaInvalid variant only the missing one(s) are demanded here; a still-valid one is governed by C08");
     let lats = [48.6, -48.6, 50.0, -50.0, 55.0, -55.0, 58.0, -58.0, 60.0, -60.0, 62.0, -62.0, 64.0, -64.0];
     let zs: Vec<(f64, f64)> = if quick { vec![(25.0, 2.0)] } else { vec![(25.0, 2.0), (-135.0, -9.0), (170.0, 12.0)] };
-    let ranges: Vec<(NaiveDate, NaiveDate)> = if quick { vec![(ymd(2023, 1, 1), ymd(2024, 12, 31)), (ymd(1600, 1, 1), ymd(1600, 12, 31)), (ymd(2399, 1, 1), ymd(2399, 12, 31))] } else { vec![(ymd(1601, 1, 1), ymd(2398, 12, 31)), (ymd(1600, 1, 1), ymd(1600, 12, 31)), (ymd(2399, 1, 1), ymd(2399, 12, 31))] };
+    let edge = [(ymd(1600, 1, 1), ymd(1600, 12, 31)), (ymd(2399, 1, 1), ymd(2399, 12, 31))];
     let methods: Vec<Method> = if quick { vec![Method::Mwl, Method::Egyptian, Method::Isna] } else { ANGLE6.to_vec() };
+    // (zone index, methods, date ranges): ~0.6 CPU-s per (site, method, year) bounds the thorough tier to
+    // two centuries for the first zone and 25 years for the others
+    let mut plan: Vec<(usize, Vec<Method>, Vec<(NaiveDate, NaiveDate)>)> = vec![];
+    if quick {
+        let mut r = vec![(ymd(2023, 1, 1), ymd(2024, 12, 31))];
+        r.extend(edge);
+        plan.push((0, methods.clone(), r));
+    } else {
+        let mut r = vec![(ymd(1900, 1, 1), ymd(2099, 12, 31))];
+        r.extend(edge);
+        plan.push((0, methods.clone(), r));
+        for z in 1..zs.len() {
+            plan.push((z, vec![Method::Mwl, Method::Egyptian, Method::Isna], vec![(ymd(2000, 1, 1), ymd(2024, 12, 31))]));
+        }
+    }
+    let mut ranges: Vec<String> = vec![];
     let mut jobs = vec![];
-    for &lat in &lats {
-        for &(lon, gmt) in &zs {
-            for &m in &methods {
-                for &(a, b) in &ranges {
-                    // split long ranges into 50-year jobs for load balance
+    for (zi, ms, rs) in &plan {
+        let (lon, gmt) = zs[*zi];
+        for (a, b) in rs {
+            ranges.push(format!("zone {:?}: {}..{} x {} methods", zs[*zi], a, b, ms.len()));
+        }
+        for &lat in &lats {
+            for &m in ms {
+                for &(a, b) in rs {
+                    // split long ranges into 25-year jobs for load balance
                     let mut s = a;
                     while s <= b {
-                        let e = (s + Days::new(365 * 50)).min(b);
+                        let e = (s + Days::new(365 * 25)).min(b);
                         jobs.push((Site::new(lat, lon, 0.0, gmt), m, s, e, None));
                         s = e.succ_opt().unwrap();
                     }
                 }
                 // the same with weather supplied by the caller (the fallback must pass it on): one year
-                if m == methods[0] {
+                if m == ms[0] {
                     jobs.push((Site::new(lat, lon, 0.0, gmt), m, ymd(2023, 7, 1), ymd(2024, 6, 30), Some((1040.0, -25.0))));
                     jobs.push((Site::new(lat, lon, 0.0, gmt), m, ymd(2023, 7, 1), ymd(2024, 6, 30), Some((880.0, 31.0))));
                 }
@@ -145,7 +165,7 @@ pub fn explore(ctx: &Ctx) {
     ctx.alphabet("lats", json!(lats));
     ctx.alphabet("zones", json!(zs));
     ctx.alphabet("methods", json!(methods.iter().map(|m| format!("{:?}", m)).collect::<Vec<_>>()));
-    ctx.alphabet("date_ranges", json!(ranges.iter().map(|(a, b)| format!("{}..{}", a, b)).collect::<Vec<_>>()));
+    ctx.alphabet("date_ranges", json!(ranges));
     ctx.alphabet("policies", json!(["NearestGoodDayFajrIshaInvalid", "NearestGoodDayAllPrayersAlways"]));
     ctx.alphabet("weather", json!(["absent (all ranges)", [1040.0, -25.0], [880.0, 31.0]]));
     par_jobs(ctx, &jobs, |(site, m, a, b, w), l| {
